@@ -23,6 +23,7 @@ type vfGen struct {
 	plainWS bool // gaps are single spaces (used by harnesses that vary gaps themselves)
 	gaps    []int // byte offsets of inter-token gaps (offset of the gap's first byte)
 	emptyName bool // an empty quoted identifier "" was written somewhere
+	noEquals  bool // quoted names never contain '='
 	plainKW bool // keywords in upper case
 }
 
@@ -122,6 +123,9 @@ func (g *vfGen) quoted(quote byte, n int) string {
 		switch vfChoice(5) {
 		case 0:
 			c := vfPlainChar(quote)
+			if g.noEquals {
+				vfAssume(c != '=')
+			}
 			g.b = append(g.b, c)
 			val = append(val, c)
 		case 1:
